@@ -935,6 +935,42 @@ def gen_pill_paused_restart(seed, mode="loop"):
     return sc
 
 
+def gen_pill_pause_in_batch(seed, mode="loop"):
+    """C08: the recipient of a poison pill is accumulating events; they are handed over right before the pill takes effect, and
+    the handler looking at them pauses (or stops and restarts, or just keeps) its own module: the pill still stops a module that
+    is RUNNING or PAUSED after that hand-over, and nothing sent after the pill reaches it - a later resume finds it stopped"""
+    r = random.Random(seed * 151 + 127)
+    sc = Sc(mode, "pill behind accumulated events, handler pauses its module seed=%d" % seed)
+    driven_skeleton(sc)
+    R, S2 = 1, 2
+    sc.mod(R, "rcpt", 0, r.choice([0, 4]))
+    sc.mod(S2, "sender", 0, 0)
+    sc.cb(R, "stop", "*", [])
+    sc.cb(S2, "evt", "*", [])
+    sc.main += [("reg", R), ("reg", S2), ("start", R), ("start", S2)]
+    how = r.choice(["size", "timeout", "low"])
+    tl = sc.topic("alpha")
+    if how == "size":
+        sc.main.append(("bsize", R, r.choice([4, 8, 64])))
+    elif how == "timeout":
+        sc.main.append(("btimeout", R, 200000000))
+    else:
+        sc.main.append(("sub", R, tl, SRC_LOW, sc.ud()))
+
+    def send():
+        return ("publish", S2, tl, sc.pay(), 0) if how == "low" else ("tell", S2, R, sc.pay(), 0)
+    react = r.choice([[("pause", -1)], [("pause", -1)], [("pause", -1), ("resume", -1)], []])
+    sc.cb(R, "evt", 0, react)
+    sc.cb(R, "evt", "*", [])
+    before = [send() for _ in range(r.randrange(1, 3))]
+    after = [send() for _ in range(r.randrange(1, 3))]
+    # (the driver's descriptor is always ready and the poll layer serves it fairly: leave the mailbox a few steps to be read)
+    steps = [[], before + [("pill", S2, R)] + after] + [[] for _ in range(6)] + [[("resume", R)], [send(), ("tell", S2, R, sc.pay(), 0)]] + [[] for _ in range(5)]
+    driven_finish(sc, steps, rng=r)
+    finalize_main(sc)
+    return sc
+
+
 def gen_restart_while_leaving(seed, mode="loop"):
     """C01: from the stop callback that its own deregistration runs, a module starts itself again - alone, or after the name
     it just gave up has been registered again by another module: ZOMBIE is final, the call is refused and changes nothing"""
@@ -991,6 +1027,44 @@ def gen_paused_with_batch_at_quit(seed, mode="loop"):
         burst = [("publish", S2, tl, sc.pay(), 0) for _ in range(r.randrange(1, 3))]
     steps = [[], burst, [], [("pause", T)], []]
     driven_finish(sc, steps, rng=r)
+    finalize_main(sc)
+    return sc
+
+
+def gen_batch_then_mail_at_quit(seed, mode="loop"):
+    """C08/C13: events are being accumulated for a RUNNING module (batch size not reached, timeout not expired, or low-priority
+    only) and later messages are still unread in its mailbox when the loop stops: the final flush hands over both, the
+    accumulated ones first (arrival order = send order)"""
+    r = random.Random(seed * 149 + 113)
+    sc = Sc(mode, "accumulated events + unread mail when the loop stops seed=%d" % seed)
+    driven_skeleton(sc)
+    T, S2 = 1, 2
+    sc.mod(T, "acc", 0, r.choice([0, 4]))
+    sc.mod(S2, "sender", 0, 0)
+    sc.cb(T, "stop", "*", [])
+    sc.cb(T, "evt", "*", [])
+    sc.cb(S2, "evt", "*", [])
+    tl = sc.topic("alpha")
+    sc.main += [("reg", T), ("reg", S2), ("start", T), ("start", S2)]
+    how = r.choice(["size", "low", "timeout", "low+size"])
+    if how in ("low", "low+size"):
+        sc.main.append(("sub", T, tl, SRC_LOW, sc.ud()))
+    if how in ("size", "low+size"):
+        sc.main.append(("bsize", T, r.choice([6, 9, 64])))
+    if how == "timeout":
+        sc.main.append(("btimeout", T, 80000000))
+
+    def send():
+        if how in ("low", "low+size"):
+            return ("publish", S2, tl, sc.pay(), 0)
+        return ("tell", S2, T, sc.pay(), 0)
+    burst = [send() for _ in range(r.randrange(1, 3))]
+    late = [send() for _ in range(r.randrange(1, 3))]
+    steps = [[], burst, []]
+    driven_finish(sc, steps, rng=r, last_ops=late)
+    sc.meta["batch_target"] = T
+    if how == "timeout":
+        sc.meta["batch_timeout_used"] = True
     finalize_main(sc)
     return sc
 
